@@ -36,6 +36,7 @@ TCall == /\ l > 1 /\ l <= Len(T) /\ E.op \in Ops /\ Adv
                /\ Check(tid, l, "P.frame", Where, FrameOKFor(cfg, obs, MsgAfter))
                /\ Check(tid, l, "P.throttle", Where, ThrottleOKFor(cfg, obs))
                /\ Check(tid, l, "P.line", Where, LineOKFor(cfg, obs, term'))
+               /\ Check(tid, l, "P.current", Where, CurrentShownFor(cfg, obs, term, term', MsgAfter))
                /\ Note(tid, l, "A.exc", E.exc = r.exc)
                /\ Note(tid, l, "A.frames", cfg.fmt = "normal" => E.frames = r.d.frames)
                /\ Note(tid, l, "A.draws", Len(E.frames) = Len(r.d.frames))
